@@ -15,7 +15,8 @@ ASSUMPTIONS = [
     "IEEE rounding inside solve_lp is not modelled: the mirror runs over exact rationals with the same eps; "
     "the gap is the tolerance comparison (tol 1e-7) and R_trace (vertex within 1e-9)",
     "solve_lp_interior: only the verdict logic is checked (OPTIMAL/FEASIBLE claims, no crash); the Newton/"
-    "Cholesky step is not modelled",
+    "Cholesky step is not modelled; the FEASIBLE residual is judged up to the forward error bound of the code's "
+    "own double-precision residual evaluation ((n+m+2) 2^-50 (sum|A_ij x_j| + |b_i| + 1) per row)",
     "the statement 'the mirror emits a valid certificate on EVERY input' is proved only for LPs that need no "
     "phase 1 (simplex_certifies_partial); in general the verified checkers are evaluated on the certificate of "
     "every explored input",
@@ -35,6 +36,9 @@ VTOL = 1e-9         # R_trace vertex tolerance
 IPM_TOL_FEAS = 1e-6  # solve_lp_interior OPTIMAL: feasibility (its residual test is 1e-8 in the 2-norm)
 IPM_TOL_OBJ = 1e-4   # solve_lp_interior OPTIMAL: |obj - opt| <= 1e-4 (1+|opt|)
 IPM_RESID = 0.01 * (1 + 1e-9)  # documented FEASIBLE residual (tiny slack for the sqrt/sum rounding)
+# The code evaluates its residual (A x + s - b)_i in doubles; when the iterates have diverged (|x| ~ 1e14 on
+# unbounded LPs) one ulp of the terms exceeds 0.01.  The checker therefore subtracts the standard dot-product
+# error bound (n+m+2) 2^-50 (sum_j |A_ij x_j| + |b_i| + 1) from each row's residual before taking the norm.
 DEFAULT_MAX_ITER = 100_000
 
 
@@ -126,7 +130,8 @@ def to_request(case, out):
         lp, ipm = _enc_impl(out[1]["lp"]), _enc_impl(out[1]["ipm"])
     return ["lp", enc_vec(case["c"]), enc_mat(case["A"]), enc_vec(case["b"]), bool(case["minimize"]),
             rat(case["opts"].get("eps", 1e-10)), int(case["opts"].get("max_iter", DEFAULT_MAX_ITER)),
-            rat(TOL), rat(VTOL), lp, ipm, rat(IPM_TOL_FEAS), rat(IPM_TOL_OBJ), rat(IPM_RESID)]
+            rat(TOL), rat(VTOL), lp, ipm, rat(IPM_TOL_FEAS), rat(IPM_TOL_OBJ), rat(IPM_RESID),
+            rat((len(case["c"]) + len(case["b"]) + 2) * 2.0 ** -50)]
 
 
 # ---------------------------------------------------------------------------
